@@ -35,12 +35,16 @@
     commands and undefined nonterminals inside words included, over the whole decided domain (which
     was tightened for them: one source per piece text, one level per command at a within-word
     point, nothing after a nonterminal inside a word), outside [ambiguous_run];
-    [C01_bash_meaning_wordbreaks] is the corollary for COMP_WORDBREAKS default and empty. *)
+    [C01_bash_meaning_wordbreaks] is the corollary for COMP_WORDBREAKS default and empty.
+    For grammars that went through the checker and the regex stage the tail-only conjunct of the
+    domain is a consequence ([C01_tail_only_compiled]); [C01_bash_meaning_compiled] states the
+    theorem over [C01_domain_core]. *)
 From CG Require Import Model.Dfa Model.Tables Model.Glob Model.BashSem Model.Driver.
 From CG Require Import Base.Prelude Model.Ast Model.Check Spec.Rx Spec.Meaning Spec.KnownC01 Spec.Domain
      Proofs.RxFacts Proofs.MeaningFacts Proofs.MeaningLevels Proofs.DomainFacts.
 From CG Require Import Proofs.TreeFacts Proofs.GlobFacts Proofs.StripFacts Proofs.BashMeaningLit Proofs.LangBridge Proofs.C01Layers.
 From CG Require Import Spec.Invocations.
+From CG Require Spec.DomainCore Proofs.WordTail Proofs.PhSpec Proofs.PhTree Proofs.CheckTree.
 From CG Require Import Proofs.SubTreeFacts Proofs.BashMeaningSub Proofs.SubChecks Proofs.BashMeaningMix Proofs.SubBridge.
 
 (** The full statement: the interpreter of the script of /repo HEAD on the tables of the model
@@ -615,6 +619,78 @@ Check C01_bash_meaning_wordbreaks :
                           /\ incl req reply /\ incl reply al
     end.
 Print Assumptions C01_bash_meaning_wordbreaks.
+
+(** "Nothing follows an undefined nonterminal inside a word" need not be asked of a compiled grammar:
+    [Regex.from_valid_expr] (the first stage of [compile_valid]) accepts a validated tree only if
+    every placeholder of every word is last (checkproofs' [C08_placeholder] /
+    [PhPool.from_valid_expr_placeholder], since the repair of finding N2 an equivalence), which makes
+    the residual after [WAny] the empty sentence at every point [Domain.explore] visits
+    (Proofs/WordTail.v).  For such grammars the decided domain is [C01_domain_core]: [C01_domain]
+    without that conjunct; the diagnostic [C01_tail_only] holds as well.  ([grammar_ops_nonempty]:
+    no operator without operands, true of everything the parser returns.) *)
+Theorem C01_tail_only_compiled :
+  forall builtins g sh v pick fuel c,
+    from_grammar builtins g sh = Ok v -> Proofs.PhSpec.grammar_ops_nonempty g = true ->
+    compile_valid pick fuel v = Ok c ->
+    (Spec.DomainCore.C01_domain_core (v_expr v) = true <-> C01_domain (v_expr v) = true) /\
+    (Spec.DomainCore.C01_domain_core (v_expr v) = true -> C01_tail_only (v_expr v) = true).
+Proof. exact Proofs.WordTail.compiled_domain. Qed.
+Check C01_tail_only_compiled :
+  forall builtins g sh v pick fuel c,
+    from_grammar builtins g sh = Ok v -> Proofs.PhSpec.grammar_ops_nonempty g = true ->
+    compile_valid pick fuel v = Ok c ->
+    (Spec.DomainCore.C01_domain_core (v_expr v) = true <-> C01_domain (v_expr v) = true) /\
+    (Spec.DomainCore.C01_domain_core (v_expr v) = true -> C01_tail_only (v_expr v) = true).
+Print Assumptions C01_tail_only_compiled.
+
+(** [C01_bash_meaning] for grammars that went through the checker: the domain without the tail-only
+    conjunct, [alts_nonempty] discharged from the checker's output. *)
+Theorem C01_bash_meaning_compiled :
+  forall builtins g sh pick fuel v c om os nd a (benv : BashSem.env) (en : Meaning.env) ws p,
+    from_grammar builtins g sh = Ok v -> Proofs.PhSpec.grammar_ops_nonempty g = true ->
+    sub_tree (v_expr v) = true ->
+    compile_valid pick fuel v = Ok c ->
+    all_tables Bash c om os = Ok (nd, a) -> NoDup om -> valid_literal_order (c_main c) om = true ->
+    sub_orders_ok c os -> subs_deterministic c ->
+    Spec.DomainCore.C01_domain_core (v_expr v) = true -> C01_env_ok (v_expr v) en = true ->
+    BashSem.e_ignore_case benv = false -> BashSem.e_wordbreaks benv = Meaning.e_wordbreaks en ->
+    breaks_ok (BashSem.e_wordbreaks benv) = true -> plain p = true -> printable_str p = true ->
+    (forall cm cid, Tables.index_of cm (a_commands a) = Some cid ->
+                    Spec.Invocations.spec_candidates (cmd_output benv cid) = candidates en cm) ->
+    ambiguous_run en (start (v_expr v)) ws = false ->
+    match complete (v_expr v) en ws p with
+    | None => exists log, run_from Repaired (d_start (c_main c)) a benv ws p = Ok (mkresult 1 [] log)
+    | Some (req, al) =>
+        exists reply log, run_from Repaired (d_start (c_main c)) a benv ws p = Ok (mkresult 0 reply log)
+                          /\ incl req reply /\ incl reply al
+    end.
+Proof.
+  intros builtins g sh pick fuel v c om os nd a benv en ws p Hv Hg Htree Hc Hall Hord Hvalid Hsords Hdet Hdom.
+  destruct (Proofs.CheckTree.check_tree builtins g sh v Hv) as (_ & _ & _ & Halts).
+  specialize (Halts (Proofs.PhTree.grammar_ops_alts g Hg)).
+  apply (C01_bash_meaning pick fuel v c om os nd a benv en ws p Htree Halts Hc Hall Hord Hvalid Hsords Hdet).
+  exact (proj1 (proj1 (Proofs.WordTail.compiled_domain builtins g sh v pick fuel c Hv Hg Hc)) Hdom).
+Qed.
+Check C01_bash_meaning_compiled :
+  forall builtins g sh pick fuel v c om os nd a (benv : BashSem.env) (en : Meaning.env) ws p,
+    from_grammar builtins g sh = Ok v -> Proofs.PhSpec.grammar_ops_nonempty g = true ->
+    sub_tree (v_expr v) = true ->
+    compile_valid pick fuel v = Ok c ->
+    all_tables Bash c om os = Ok (nd, a) -> NoDup om -> valid_literal_order (c_main c) om = true ->
+    sub_orders_ok c os -> subs_deterministic c ->
+    Spec.DomainCore.C01_domain_core (v_expr v) = true -> C01_env_ok (v_expr v) en = true ->
+    BashSem.e_ignore_case benv = false -> BashSem.e_wordbreaks benv = Meaning.e_wordbreaks en ->
+    breaks_ok (BashSem.e_wordbreaks benv) = true -> plain p = true -> printable_str p = true ->
+    (forall cm cid, Tables.index_of cm (a_commands a) = Some cid ->
+                    Spec.Invocations.spec_candidates (cmd_output benv cid) = candidates en cm) ->
+    ambiguous_run en (start (v_expr v)) ws = false ->
+    match complete (v_expr v) en ws p with
+    | None => exists log, run_from Repaired (d_start (c_main c)) a benv ws p = Ok (mkresult 1 [] log)
+    | Some (req, al) =>
+        exists reply log, run_from Repaired (d_start (c_main c)) a benv ws p = Ok (mkresult 0 reply log)
+                          /\ incl req reply /\ incl reply al
+    end.
+Print Assumptions C01_bash_meaning_compiled.
 
 (** Inhabited: [cmd --x=<U> {{{probe}}}=(v|w) end;] -- an undefined nonterminal and a command inside
     words -- through the whole model pipeline. *)
